@@ -129,9 +129,14 @@ def ServerStream.liftConn (s : ServerStream) (k : ClientKey) (r : R) : SR :=
       | o => SOut.client k o),
     err := r.err }
 
+/-- `transport.send(ack, addr)` on a stream transport whose stream client is gone (`PRUDPSocketTransport.sendto`: "Transport
+    connection is closed"): nothing is written and the exception leaves `handle` (the transport's barrier swallows it) -/
+def SR.gate (linkUp : Bool) (r : SR) : SR :=
+  if linkUp || r.outs.isEmpty then r else { s := r.s, outs := [], err := some .closed }
+
 /-- `PRUDPServerStream.handle(packet, addr)` -/
 def ServerStream.handle (env : Env) (now : Time) (rnd : Rnd) (linkUp : Bool) (s : ServerStream) (p : Packet) (addr : Addr) : SR :=
-  if p.type = TYPE_SYN ∧ !hasAck p.flags then s.processSyn env p addr
+  if p.type = TYPE_SYN ∧ !hasAck p.flags then (s.processSyn env p addr).gate linkUp
   else if p.type = TYPE_CONNECT ∧ !hasAck p.flags then s.processConnect env now rnd linkUp p addr
   else
     let k : ClientKey := (addr, p.sourcePort, p.sourceType)
@@ -200,6 +205,7 @@ def ServerT.processData (env : Env) (now : Time) (rnd : Rnd) (t : ServerT) (data
 structure ClientT where
   conns : List (Nat × Conn) := []                 -- port table (normally one connection)
   liteBuf : Bytes := []
+  linkUp : Bool := true                           -- stream transports: the transport's one stream is still there
   deriving DecidableEq, Repr
 
 structure CR where
